@@ -47,6 +47,7 @@ Definition agree_C13 (i o : val) : bool :=
 
 (* THE PROPERTY on an implementation observation:
    no loader panicked; a file set that follows the documented format was accepted; an accepted file set is closed
+   (closed_full: including the products named by vip_rule.data)
    (gslb / cluster_table: an accepted file is usable). *)
 Definition no_panic (o : val) : bool :=
   match o with VL l => forallb (fun x => match x with VZ (-2) => false | _ => true end) l | _ => false end.
@@ -55,7 +56,7 @@ Definition prop_C13 (i o : val) : bool :=
   | VL [VZ 1; VZ _; h; v; r; c] =>
       match d_files h v r c, o with
       | Some fs, VL [_; _; _; _; VZ all] =>
-          no_panic o && (if documented fs then all =? 1 else true) && (if all =? 1 then closed fs else true)
+          no_panic o && (if documented fs then all =? 1 else true) && (if all =? 1 then closed_full fs else true)
       | _, _ => false
       end
   | VL [VZ 2; VZ _; g] =>
@@ -71,4 +72,13 @@ Definition prop_C13 (i o : val) : bool :=
   | VL [VZ 9; VZ _; VB _] => match o with VL [VZ _] => no_panic o | _ => false end
   | _ => false
   end.
-Definition kf_C13 (i : val) : Z := 0.
+(* known-finding class 1: vip_rule.data names a product that HostTags does not define *)
+Definition kf_C13 (i : val) : Z :=
+  match i with
+  | VL [VZ 1; VZ _; h; v; r; c] =>
+      match d_files h v r c with
+      | Some fs => if vip_products_defined fs then 0 else 1
+      | None => 0
+      end
+  | _ => 0
+  end.
